@@ -34,6 +34,18 @@ theorem lexLine_token_spans (derom : Bool) (src : Text) (toks : List AToken) (h 
   simp only [ALS.total, ALS.pos, Lex.LS.total, Nat.zero_add] at this
   omega
 
+/-- **token values**: a diacritic token indexes the diacritic table; a feature token is `tone: n` with `n < 2^16` or a
+    row of the alias feature table, other than the tone, with `+` or `-` (no alpha reaches the alias parser) -/
+theorem lexLine_tokens_ok (derom : Bool) (src : Text) (toks : List AToken) (h : lexLine derom src = .ok toks) :
+    ∀ t ∈ toks, ATokX t := by
+  have hs := lineLoop_spec derom (src.length + 1) { ls := { src := src, pos := 0 } } [] (Nat.lt_succ_self _)
+  unfold lexLine at h
+  rw [h] at hs
+  obtain ⟨new, hres, hw, t, h1, h2⟩ := hs
+  simp only [List.nil_append] at hres
+  subst hres
+  exact fun t' ht' => (hw t' ht').2.2.2
+
 /-- **alias lexer errors are well placed** -/
 theorem lexLine_error_span (derom : Bool) (src : Text) (e : LErr) (h : lexLine derom src = .err e) :
     e.start ≤ e.stop ∧ e.stop ≤ src.length + 1 := by
